@@ -523,7 +523,7 @@ package pokerface
 //@ pred AFTERACTION(g) = WAITINV(g) && (g.gs.Status.CurrentEvent == "RoundStarted" || g.gs.Status.CurrentEvent == "RoundClosed")
 
 //@ func (*player).Pass(p) (err)
-//@   props C04 C11 C07
+//@   props C04 C11 C07 C06
 //@   requires WFP(p) && WAITINV(p.game)
 //@   modifies @ACTION
 //@   allocs Action, elems(string), elems(Player), settlement.Result
@@ -535,7 +535,7 @@ package pokerface
 //@   ensures [C06] err == nil && old(p.game.gs.Status.CurrentEvent) == "RoundStarted" && p.game.gs.Status.CurrentEvent == "RoundStarted" ==> DECR(p.game)
 
 //@ func (*player).Fold(p) (err)
-//@   props C04 C11 C07
+//@   props C04 C11 C07 C06
 //@   requires WFP(p) && WAITINV(p.game)
 //@   modifies @ACTION
 //@   allocs Action, elems(string), elems(Player), settlement.Result
@@ -546,7 +546,7 @@ package pokerface
 //@   ensures [C06] err == nil && old(p.game.gs.Status.CurrentEvent) == "RoundStarted" && p.game.gs.Status.CurrentEvent == "RoundStarted" ==> DECR(p.game)
 
 //@ func (*player).Check(p) (err)
-//@   props C04 C11 C07
+//@   props C04 C11 C07 C06
 //@   requires WFP(p) && WAITINV(p.game)
 //@   modifies @ACTION
 //@   allocs Action, elems(string), elems(Player), settlement.Result
@@ -556,7 +556,7 @@ package pokerface
 //@   ensures [C06] old(hasStr(p.state.AllowedActions, "check")) && p.game.gs.Status.CurrentEvent == "RoundStarted" ==> DECR(p.game)
 
 //@ func (*player).Call(p) (err)
-//@   props C04 C11 C12 C01 C07
+//@   props C04 C11 C12 C01 C07 C06
 //@   requires WFP(p) && WAITINV(p.game)
 //@   modifies @ACTION
 //@   allocs Action, elems(string), elems(Player), settlement.Result
@@ -569,7 +569,7 @@ package pokerface
 //@   ensures [C06] err == nil && old(p.game.gs.Status.CurrentEvent) == "RoundStarted" && p.game.gs.Status.CurrentEvent == "RoundStarted" ==> DECR(p.game)
 
 //@ func (*player).Allin(p) (err)
-//@   props C04 C11 C12 C01 C07
+//@   props C04 C11 C12 C01 C07 C06
 //@   requires WFP(p) && WAITINV(p.game)
 //@   modifies @ACTION
 //@   allocs Action, elems(string), elems(Player), settlement.Result
@@ -582,7 +582,7 @@ package pokerface
 //@   ensures [C06] err == nil && old(p.game.gs.Status.CurrentEvent) == "RoundStarted" && p.game.gs.Status.CurrentEvent == "RoundStarted" ==> DECR(p.game)
 
 //@ func (*player).Bet(p, chips) (err)
-//@   props C04 C11 C12 C01 C07
+//@   props C04 C11 C12 C01 C07 C06
 //@   requires WFP(p) && WAITINV(p.game)
 //@   modifies @ACTION
 //@   allocs Action, elems(string), elems(Player), settlement.Result
@@ -597,7 +597,7 @@ package pokerface
 //@   ensures [C06] err == nil && old(p.game.gs.Status.CurrentEvent) == "RoundStarted" && p.game.gs.Status.CurrentEvent == "RoundStarted" ==> DECR(p.game)
 
 //@ func (*player).Raise(p, chipLevel) (err)
-//@   props C04 C12 C01 C07
+//@   props C04 C12 C01 C07 C06
 //@   requires WFP(p) && WAITINV(p.game)
 //@   modifies @ACTION
 //@   allocs Action, elems(string), elems(Player), settlement.Result
